@@ -175,7 +175,7 @@ def check(prog: Program, tier: str) -> Result:
     _c05.adopt_memo_rule(prog, res, "R18.10", anchors,
                          "import normalisation must hold for ANY layout of the imported packages: a memoised lookup answers for the layout of an earlier call "
                          "(another working directory, an edited or moved module), so star-imports are expanded to names the module no longer exports")
-    res.floors.update({"R18.1": 6, "R18.2": 2, "R18.4": 1, "R18.5": 1, "R18.10": 3, "R18.11": 2, "R18.12": 1, "R18.13": 3})
+    res.floors.update({"R18.1": 6, "R18.2": 2, "R18.4": 1, "R18.5": 1, "R18.10": 3, "R18.11": 2, "R18.12": 1, "R18.13": 3, "R18.14": 1})
     res.analysed["importfrom_constructions"] = n
     return res
 
@@ -281,6 +281,12 @@ def _r18_12(prog: Program, res: Result) -> None:
                 for y in ast.walk(st.test):
                     if isinstance(y, ast.Name):
                         texts += [norm(v) for _s, v in bindings(fn).get(y.id, []) if v is not None]
+        # R18.14: the names the moved imports bind must be free at module level
+        free = any("get_defined_names" in t or ("isdisjoint" in t and "defined" in t) for t in texts) and any(("asname" in t and " if " in t) or "isdisjoint" in t for t in texts)
+        res.decide(free, "R18.14", fn.loc(lp), fn.fq, f"for {lp.target.id} in {short(lp.iter, 50)} # names bound by the moved imports",
+                   "only imports whose bound names are not defined in the module are moved" if free else
+                   "an import is moved to module level although the module has a variable (function, class) of the name it binds: the hoisted `import json` and the module-level "
+                   "`json = {..}` overwrite each other")
         removed = [t for t in texts if (t.startswith("-= ") or t.startswith("skip if ") or " if " in t) and "Try" in t] or \
                   [t for t in texts if "Try" in t and any(u.startswith("-= ") or u.startswith("skip if ") for u in texts)]
         ok = bool(removed)
@@ -615,6 +621,8 @@ def _r18_6(prog: Program, res: Result) -> None:
 from ..selftest import Variant  # noqa: E402
 
 VARIANTS = [
+    Variant("imports-hoisted-onto-taken-names", "FIRE", "fixes",
+            "    defined_names = tracing.get_defined_names(root)\n    imports_movable_to_toplevel = {\n        node\n        for node in imports_movable_to_toplevel\n        if defined_names.isdisjoint(\n            (alias.asname or alias.name).split(\".\")[0] for alias in node.names\n        )\n    }\n", "", "R18.14"),
     Variant("underscore-names-exported-again", "FIRE", "tracing", "        elif name.startswith(\"_\"):\n            return None  # Without __all__, a star import leaves out the names with a leading underscore\n", "", "R18.13"),
     Variant("all-as-a-list-only", "FIRE", "tracing", "                ast.Tuple(elts={ast.Constant(value=str)}),\n            ),\n        )\n", "            ),\n        )\n", "R18.13"),
     Variant("guarded-imports-hoisted", "FIRE", "fixes",
